@@ -29,6 +29,9 @@ func c12Gen(r *rand.Rand, tier string) []spec.Case {
 		add(spec.C12Case{Proto: "grpc", Path: "host-brokered", Launch: "runner"})
 		add(spec.C12Case{Proto: "grpc", Path: "plugin-brokered", Launch: "runner-translate"})
 		add(spec.C12Case{Proto: "grpc", Path: "host-brokered", Launch: "runner-translate"})
+		for _, pr := range []string{"netrpc", "grpc"} {
+			add(spec.C12Case{Proto: pr, Path: "relaunch-impostor", Launch: "cmd"})
+		}
 		for _, pr := range []string{"netrpc", "grpc", "grpcmux"} {
 			for _, im := range []string{"tls", "plaintext"} {
 				add(spec.C12Case{Proto: pr, Impostor: im, Launch: "cmd"})
@@ -53,6 +56,22 @@ func c12Judge(c spec.Case, evs []spec.Event, d *Death) CaseResult {
 	viol := func(key, msg string) {
 		res.Verdict = "violated"
 		res.Violations = append(res.Violations, Violation{Key: "C12:" + key, Msg: fmt.Sprintf("%s [proto=%s path=%s impostor=%s launch=%s]", msg, p.Proto, p.Path, p.Impostor, p.Launch)})
+	}
+	if p.Path == "relaunch-impostor" {
+		res.Sample = map[string]any{"path": p.Path, "proto": p.Proto, "launch1": o.Positive, "launch2": o.HostOps}
+		res.Counters["impostor_cases"]++
+		if !o.PositiveOK {
+			return CaseResult{Verdict: "inconclusive", Inconcl: "positive control failed: " + o.Positive, Class: res.Class}
+		}
+		for _, h := range o.HostOps {
+			if h == "HUNG" {
+				viol("impostor-hang", fmt.Sprintf("host operations against an impostor plugin hung: %v", o.HostOps))
+			}
+		}
+		if o.AnyOK {
+			viol("impostor-answered:earlier-launch-certificate", fmt.Sprintf("with one ClientConfig used for a second launch, the host completed an RPC against a plugin that announced a fresh certificate but serves with the certificate of the earlier launch: %v", o.HostOps))
+		}
+		return res
 	}
 	if p.Impostor != "" {
 		res.Sample = map[string]any{"impostor": p.Impostor, "proto": p.Proto, "host_ops": o.HostOps}
